@@ -1,9 +1,8 @@
 #!/bin/sh
-# Kernels: regenerate coq/Gen/GoKernels.v (one Gallina definition per whitelisted arithmetic kernel:
-# Align*, Read3Size/Write3Size, Checksum8/16, IsErased, the fileAttr accessors and the alignment table,
-# the erase-polarity bit, the FIT address arithmetic, AMD's PhysAddrToOffset and Fletcher-32) from the
-# Go SOURCE of the repository.  Run for every property by bin/gen-extra.  Fails loudly on any statement
-# or expression shape the translator does not recognise.
+# Kernels: regenerate coq/Gen/GoKernels.v (one Gallina definition per whitelisted arithmetic kernel of
+# pkg/uefi, pkg/intel/metadata/fit, pkg/compression and pkg/amd/manifest -- the whitelist is in
+# harness/cmd/translate-kernels/main.go) from the Go SOURCE of the repository.  Run for every property
+# by bin/gen-extra.  Fails loudly on any statement or expression shape the translator does not recognise.
 set -e
 ROOT="$(cd "$(dirname "$0")/.." && pwd)"
 REPO="${VERIF_REPO_PATH:-/repo}"
